@@ -176,6 +176,7 @@ func runC11(c *vk.Ctx) {
 	c11PersisterReuse(c)
 	c11PersisterLoads(c)
 	c11SharedPersisterRefused(c)
+	c11LongIds(c)
 	ctx := context.Background()
 	sids, keys := c11SidsQuick, c11KeysQuick
 	if !c.Quick() {
@@ -593,5 +594,65 @@ func c11SharedPersisterRefused(c *vk.Ctx) {
 		}
 		sp.Close()
 		b.Cleanup()
+	}
+}
+
+// c11LongIds: session ids beyond the file-name limit. A store that refuses them (the pinned tree does) has nothing to
+// isolate; one that accepts them has to fold them into file names, and a fold is only injective if it says so: a quarter
+// of a million ids that share their first 250 bytes (enough for birthday collisions of any 32-bit fold) are written with
+// unique values and read back.
+func c11LongIds(c *vk.Ctx) {
+	if !c.Mine(2) || !c.Want("long-ids") {
+		return
+	}
+	c.Begin("long-ids")
+	ctx := context.Background()
+	for _, backend := range []string{"fs", "fsbin"} {
+		b, err := app.NewBackend(backend)
+		if err != nil {
+			continue
+		}
+		func() {
+			defer b.Cleanup()
+			store, _ := b.Handle()
+			prefix := strings.Repeat("L", 250)
+			store.SetPrefix(db.DATATYPE_USERDATA)
+			store.SetSession(prefix + "00000000")
+			if err := store.Put(ctx, []byte("k"), []byte("probe")); err != nil {
+				c.Count("long_session_ids_refused:"+backend, 1)
+				c.EvalN(1, 1)
+				return
+			}
+			r := c.RNG("long-ids/" + backend)
+			n := 1 << 18
+			ids := make([]uint32, n)
+			seen := map[uint32]bool{}
+			for i := range ids {
+				x := r.U32()
+				for seen[x] {
+					x = r.U32()
+				}
+				seen[x] = true
+				ids[i] = x
+			}
+			accepted := 0
+			for _, x := range ids {
+				store.SetSession(fmt.Sprintf("%s%08x", prefix, x))
+				if store.Put(ctx, []byte("k"), []byte(fmt.Sprintf("value-of-%08x", x))) == nil {
+					accepted++
+				}
+			}
+			c.Count("long_session_ids_accepted:"+backend, int64(accepted))
+			for _, x := range ids {
+				store.SetSession(fmt.Sprintf("%s%08x", prefix, x))
+				got, err := store.Get(ctx, []byte("k"))
+				c.EvalN(1, 1)
+				if err == nil && string(got) != fmt.Sprintf("value-of-%08x", x) {
+					c.Violate(backend+":long-session-ids-share-a-record", fmt.Sprintf("%s: %d session ids of 258 bytes with a common prefix of 250 are accepted; session ...%08x reads %q, the value written by another session", backend, accepted, x, got), "long-ids",
+						map[string]interface{}{"backend": backend, "id_suffix": fmt.Sprintf("%08x", x), "read": string(got)})
+					return
+				}
+			}
+		}()
 	}
 }
